@@ -320,6 +320,8 @@ func runC10(c *Ctx) {
 
 	// ---- R2/R3 accumulating read loops
 	c10Loops(c, p, cio, net)
+	noRetryOnTemporary(c, p, cio, "R3")
+	nilableLibraryFields(c, p, "R4")
 
 	// ---- R4/R5 bounds and panics
 	n := boundsRule(c, net, "R4", "R5", nil)
